@@ -43,7 +43,8 @@ THEOREMS = [
     "c10_nan_word_refuted", "c10_inf_key_refuted",
     "file_roundtrip", "reference_identity", "field_objects_distinct", "restrict_drops_exactly_below_level",
     "c10_dangling_ref_refuted", "c10_parent_lookup_refuted", "c10_shallow_memo_refuted", "c10_np_string_refuted",
-    "c10_meta_nan_file_refuted", "c10_bare_names_refuted", "graph_rich_example",
+    "c10_meta_nan_file_refuted", "graph_roundtrip", "graph_reference_identity", "graph_field_objects_distinct",
+    "c10_bare_names_refuted", "graph_rich_example",
     "decode_history_independent", "c10_parse_memo_refuted",
 ]
 
@@ -914,6 +915,7 @@ def run_dataset_case(ctx, idx, rng, corpus=None, reread=False):
 
     d_term = None if rich else v1(lambda: dataset_term(ds, info))
     g_term = graph_term(ds, info)
+    info["g_term"] = g_term
     lvl_n = 1 if lvl is None else LEVELS[lvl]
     if d_term is not None:
         info["hyp_term"] = emit.pair(d_term, emit.z(lvl_n))
@@ -1252,13 +1254,15 @@ def run(ctx):
         ctx.count("attr:" + type(v).__name__)
         nontriv = isinstance(v, (list, tuple, set, dict)) and len(v) > 0
         ctx.case(("A", canon(v)), nontrivial=nontriv, sample=rep if nontriv and len(metaA) % 500 == 7 else None)
+    ctx.log(f"A: {len(casesA)} codec cases generated")
     vsA = ctx.coq_cases(emit.shard_terms("check_attr3", casesA, 250), REQ)
+    ctx.log("A: evaluated in Coq")
     flatA = emit.flatten_verdicts(vsA, len(casesA))
 
     # ---- B. datasets
     casesB, metaB, hypB = [], [], []
     casesR, metaR = [], []
-    casesG, metaG = [], []
+    casesG, metaG, hypG = [], [], []
     corp = corpus_cases()
     n_hand = len(corp)
     corp = corp + grid_cases(not ctx.quick())
@@ -1278,6 +1282,7 @@ def run(ctx):
             continue
         idx += 1
         casesG.append(info.pop("g_case"))
+        hypG.append(info.pop("g_term"))
         metaG.append(dict(rep, kind="dataset (object graph model)"))
         n_done += 1
         if term is not None:
@@ -1305,10 +1310,16 @@ def run(ctx):
         nontriv = len(rep["fields"]) >= 2 and "write_raised" not in rep
         ctx.case(("B", json.dumps(rep["fields"]), json.dumps(rep["references"]), rep["write_level"], rep["meta"], rep["num_obs"], idx),
                  nontrivial=nontriv, sample=rep if nontriv and len(metaB) % 60 == 11 else None)
+    ctx.log(f"B/G: {len(casesG)} datasets written and read")
     vsB = ctx.coq_cases(emit.shard_terms("check_run", casesB, 12), REQ)
+    ctx.log("B: evaluated in Coq")
     flatB = emit.flatten_verdicts(vsB, len(casesB))
     vsG = ctx.coq_cases(emit.shard_terms("check_run2", casesG, 12), REQ2)
+    ctx.log("G: evaluated in Coq")
     flatG = emit.flatten_verdicts(vsG, len(casesG))
+    vsH2 = ctx.coq_cases(emit.shard_terms("check_hyp2", hypG, 40), REQ2 + "\nFrom Verif Require Import Proofs.C10_GraphTop.")
+    for h in emit.flatten_verdicts(vsH2, len(hypG)) or []:
+        ctx.count("hypotheses:graph:" + ("gwf" if h else "outside-gwf"))
     vsR = ctx.coq_cases(emit.shard_terms("check_reread", casesR, 8), REQ)
     flatR = emit.flatten_verdicts(vsR, len(casesR))
     # how many generated datasets meet the hypotheses of file_roundtrip (wf, tree_shaped, closed)
